@@ -18,7 +18,7 @@ import copy
 import itertools
 
 from ..cfg import Assume, header_uses
-from ..core import (base_name, call_name, const_value, names_loaded, params,
+from ..core import (base_name, call_name, const_value, kwarg, names_loaded, params,
                     target_names, u, walk_expr, walk_local)
 from ..patterns import (Cmp, assigns_to, calls_in, canon_atom,
                         check_no_arg_mutation, conjuncts, finfo, returns_of,
@@ -914,11 +914,48 @@ def d2_transitions(ck):
             ck.missing(rule, 'no result recognised for %d-D input' % dim)
 
 
+def d2_empty_result(ck):
+    """Added after the seeding rounds (DESIGN.md 11.2, G5).  `transitions`
+    hands the column half of `where(mask)` - EMPTY when no trajectory has a
+    transition - to RaggedArray together with explicit lengths.  The
+    constructor must be able to build an array from empty data with given
+    lengths: the constructor analysis (every slot stored before it is read,
+    for every combination of branch conditions) is consulted for the
+    combination {data empty, lengths given}."""
+    from . import extra
+    from ..report import Checker
+    rule = 'C20.D2.transitions.empty-result'
+    mod = ck.repo.mod(DI)
+    fn = mod.func('transitions')
+    calls = [c for c in calls_in(fn) if (call_name(c) or '').endswith('RaggedArray') and
+             (kwarg(c, 'lengths') is not None or len(c.args) >= 2)]
+    if not calls:
+        ck.missing(rule, 'RaggedArray(<columns>, lengths=...) construction in transitions')
+        return
+    ram = ck.repo.mod('enspara/ra/ra.py')
+    shadow = Checker(ck.pid, 'shadow', ck.repo, ck.seed)
+    shadow.known = {}
+    extra.attrs_definite_in_constructor(shadow, rule, ram, 'RaggedArray.__init__')
+    hits = [v for v in shadow.violations if 'lengths is None is False' in v['detail'] and '0 < len(array) is False' in v['detail']]
+    if shadow.incomplete:
+        ck.missing(rule, '; '.join(shadow.incomplete)[:200])
+        return
+    for c in calls:
+        if hits:
+            ck.bad(rule, mod, c, 'transitions', u(c)[:120],
+                   'when no trajectory has a transition the data handed to RaggedArray are empty while lengths are given, and '
+                   'RaggedArray.__init__ reads self._data on that path without ever storing it (%s): AttributeError instead of '
+                   'a ragged array of empty rows' % hits[0]['site'])
+        else:
+            ck.ok(rule, mod, c, u(c)[:120], 'the constructor stores every slot before reading it also for empty data with given lengths')
+
+
 def check(ck):
     mod = ck.repo.mod(RO)
     d1_carried_state(ck, mod)
     d3_gates(ck, mod)
     d3_exit_test(ck, mod)
     d2_transitions(ck)
+    d2_empty_result(ck)
     check_no_arg_mutation(ck, 'C20.D4.inputs-unmodified', [(RO, '_rotamers'), (RO, 'get_gates'), (RO, 'is_buffered_transition'), (DI, 'transitions')])
     return EXPLANATION
